@@ -153,16 +153,17 @@ def run(ctx):
         "TLC, the Go toolchain and goleveldb are trusted",
     ]
 
-    # 1. the design: exhaustive TLC on the repaired model
-    r = eng.exhaustive("FSM_small.cfg", workers=6 if quick else 8, coverage=not quick)
-    ctx.log("FSM_small: %d distinct states, depth %d" % (r.distinct, r.depth))
-    if not quick:
-        z = [l for l in r.coverage_zero() if "FSM.tla" in l or "module FSM" in l]
-        ctx.cov["coverage_zero"] = z[:20]
-        r = eng.exhaustive("FSM_exp.cfg", workers=8)
-        ctx.log("FSM_exp: %d distinct states" % r.distinct)
-        r = eng.exhaustive("FSM_big.cfg", workers=8, timeout=1200)
-        ctx.log("FSM_big: %d distinct states" % r.distinct)
+    # 1. the design: exhaustive TLC on the repaired model (in the background)
+    def exhaustive():
+        r = eng.exhaustive("FSM_small.cfg", workers=4 if quick else 8, coverage=not quick)
+        ctx.log("FSM_small: %d distinct states, depth %d" % (r.distinct, r.depth))
+        if not quick:
+            ctx.cov["coverage_zero"] = [l for l in r.coverage_zero() if "FSM.tla" in l or "module FSM" in l][:20]
+            r = eng.exhaustive("FSM_exp.cfg", workers=8)
+            ctx.log("FSM_exp: %d distinct states" % r.distinct)
+            r = eng.exhaustive("FSM_big.cfg", workers=8, timeout=1500)
+            ctx.log("FSM_big: %d distinct states" % r.distinct)
+    eng.background("exhaustive", exhaustive)
 
     # 2. what TLC says about the pinned behaviour (candidates only; the replay decides)
     cex = {}
@@ -172,10 +173,10 @@ def run(ctx):
             cex[cfg] = hist
     ctx.cov["asis_counterexamples"] = {k: [h["a"] for h in v] for k, v in cex.items()}
 
-    # 3. replay on the real FSM: known shapes + TLC counterexamples
+    # 3. replay on the real FSM: known shapes + TLC counterexamples, both encodings
     shapes = known_shapes()
     behs = list(shapes.values()) + list(cex.values())
-    scheds1, ev1 = eng.replay_behaviours(behs + behs, "PreludeSess", "shape", proto_of=lambda k: k < len(behs))
+    eng.replay_behaviours(behs + behs, "PreludeSess", "shape", proto_of=lambda k: k < len(behs))
 
     # 4. replay every transition of the small graphs
     behs, nedges = eng.edges("FSM_edges.cfg" if quick else "FSM_edges4.cfg")
@@ -183,15 +184,15 @@ def run(ctx):
     scheds2, ev2 = eng.replay_behaviours(behs, "PreludeSess", "edge", nproc=4 if quick else 6)
     behs, nedges = eng.edges("FSM_expedges.cfg")
     ctx.cov["edges_expiration"] = nedges
-    eng.replay_behaviours(behs, "PreludeSess", "expedge", limit=1500 if quick else None)
+    eng.replay_behaviours(behs, "PreludeSess", "expedge", limit=500 if quick else None, nproc=4 if quick else 6)
 
     # 5. seeded simulation over the full alphabet, longer logs
-    behs = eng.simulate("FSM_sim.cfg", num=150 if quick else 3000, depth=40)
+    behs = eng.simulate("FSM_sim.cfg", num=40 if quick else 2000, depth=36, timeout=300 if quick else 1500)
     eng.replay_behaviours(behs, "PreludeSess", "sim", nproc=4 if quick else 6)
 
     # 6. seeded random schedules over longer realistic logs (differential oracle only)
     rng = random.Random(ctx.seed)
-    rs = [F.gen_random(rng, "rand-%d" % k) for k in range(150 if quick else 3000)]
+    rs = [F.gen_random(rng, "rand-%d" % k) for k in range(150 if quick else 4000)]
     t = time.time()
     evr = eng.run(rs, nproc=4 if quick else 6)
     steps, nviol = F.judge_all(ctx, rs, evr)
@@ -203,5 +204,5 @@ def run(ctx):
                 "steps": [st["a"] for st in rs[0]["steps"]]})
 
     # 7. the binding binds
-    if ctx.selftest or True:
-        selftest(ctx, eng, scheds2, ev2)
+    selftest(ctx, eng, scheds2, ev2)
+    eng.finish()
